@@ -1048,7 +1048,10 @@ def mutation(ctx, res, n, binary=None, env=None, sanitizer=False, tag='mut'):
                 fr = frames_of(c.result[2].decode('latin-1'))
                 loc = fr[0] if fr else None
             if loc:
-                vs = [(re.sub(r'mutant:(\w+)$', 'mutant:at:' + loc.replace('\\', ''), k), d + ' in ' + loc, o, r) for k, d, o, r in vs]
+                # the xact/entry/draft commands run on a destroyed parse context (F46): a use after
+                # free surfaces in a different function from run to run, so the verb names the construct
+                where = ('xact-command:at:' if c.args and c.args[0] in ('xact', 'entry', 'draft') else 'at:') + loc.replace('\\', '')
+                vs = [(re.sub(r'mutant:(\w+)$', 'mutant:' + where, k), d + ' in ' + loc, o, r) for k, d, o, r in vs]
             else:
                 kind = line_kind(c.journal if isinstance(c.journal, bytes) else (c.journal or '').encode('latin-1'))
                 optsig = '+'.join(sorted(set(a for a in c.args[1:] if a.startswith('-') and a != '--now'))) or 'no-options'
